@@ -1,3 +1,6 @@
 import Demeter.Num
 import Demeter.TickMath
 import Demeter.LiqMath
+import Demeter.Wallet
+import Demeter.Broker
+import Demeter.TickPrice
